@@ -1,7 +1,9 @@
 package model
 
 import (
+	"fmt"
 	"math"
+	"sort"
 
 	"verifh/corpus"
 )
@@ -233,4 +235,47 @@ func zeroOf(s *corpus.Schema, t corpus.TypeExpr) *Value {
 		}
 	}
 	return Simplest(s, t, 0)
+}
+
+// GrowFirstMap duplicates entries of the first non-empty map found in v (depth first, fields in name order) under fresh
+// keys until that map has n entries; it reports whether a map was found.
+func GrowFirstMap(v *Value, n int) bool {
+	if v == nil {
+		return false
+	}
+	switch v.Kind {
+	case KMap:
+		keys := make([]string, 0, len(v.Entries))
+		for k := range v.Entries {
+			keys = append(keys, k)
+		}
+		sort.Strings(keys)
+		if len(keys) > 0 {
+			for i := 0; len(v.Entries) < n; i++ {
+				// key order and insertion order disagree on purpose
+				v.Entries[fmt.Sprintf("g%04d", (i*7919)%100000+i)] = Clone(v.Entries[keys[i%len(keys)]])
+			}
+			return true
+		}
+	case KArray:
+		for _, e := range v.Elems {
+			if GrowFirstMap(e, n) {
+				return true
+			}
+		}
+	case KRecord:
+		names := make([]string, 0, len(v.Fields))
+		for k := range v.Fields {
+			names = append(names, k)
+		}
+		sort.Strings(names)
+		for _, k := range names {
+			if GrowFirstMap(v.Fields[k], n) {
+				return true
+			}
+		}
+	case KUnion:
+		return GrowFirstMap(v.Member, n)
+	}
+	return false
 }
